@@ -260,8 +260,6 @@ class Engine:
         for c in classes:
             try:
                 out[c] = ("ok", canon.tree_digest(T.flatten(pickle.loads(tree_pickle), A.ComponentRef.from_string(c)), SKIP))
-            except RecursionError:
-                raise
             except Exception as e:
                 out[c] = ("fail", type(e).__name__)
         return out
